@@ -75,6 +75,7 @@ type Explorer struct {
 	inputs  []inputRec
 	symSeq  int
 	chanSeq int
+	absSeq  int
 	notes   []string
 
 	stats     Stats
@@ -461,6 +462,7 @@ func (ex *Explorer) runOnePath(entry *ssa.Function) {
 	ex.notes = ex.notes[:0]
 	ex.symSeq = 0
 	ex.chanSeq = 0
+	ex.absSeq = 0
 	ex.pathUnknown = false
 	ex.solver.reset()
 	i.undoOn = true
